@@ -212,3 +212,23 @@ def oracle_knn_predict(D, n, row, k, cost, labels_by_node, constant, mn, mx, got
     if got not in ok:
         return "predicted %r; k=%d nearest max-min rule allows %r (query density %r)" % (got, k, sorted(ok), dens)
     return None
+
+
+def gen_split_inst(rng, nmax=11, m=0):
+    """Labeled instance for KNN-supervised training: points 0..ntr-1 train, ntr..n-1 validation, both containing every class.
+    Feature-based only (KNNSupervisedOPF._learn demands a train-sized pre-computed matrix, so validation cannot use one)."""
+    while True:
+        ntr = rng.randint(3, max(3, nmax - 3))
+        nva = rng.randint(2, 4)
+        k = rng.randint(2, min(3, ntr, nva))
+        def lab(cnt):
+            while True:
+                l = [rng.randrange(k) for _ in range(cnt)]
+                if len(set(l)) == k:
+                    return l
+        it = gen_kinst(rng, nmin=ntr + nva, nmax=ntr + nva, m=m, labelled=False, kinds=("feat", "lattice", "dup"))
+        if it.X is None:
+            continue
+        it.labels = lab(ntr) + lab(nva)
+        it.ntr = ntr
+        return it
